@@ -615,7 +615,7 @@ Section Honest.
       entry that now holds its variant is dated with the time of the step) — when the variant is admitted to the
       cache (repairs 8fe98d4, 92a9cd2); one that is not is served and the cache left as it was: the entry does
       not hold the client's tuple, and a later conditional request is recomputed ([not_modified_needs_variant]) *)
-  Definition variant_admitted (k : key) (r : request) (f : fat) : bool :=
+  Definition variant_accepted (k : key) (r : request) (f : fat) : bool :=
     wants_cache cache_on (rq_method r) f && (negb (f_spref f =? SP_QUERY) || key_has_query k) && negb (kvarn_none f)
     && (N.of_nat (length (f_body f)) <? size_limit).
 
@@ -626,9 +626,9 @@ Section Honest.
     vary_missing hstate compute cache_on ims_on negotiate rules_of dbg c hs now r ok k position headers = Ok (st', rp, lg, calls) ->
     let f := fst (fst (compute hs r ok)) in
     rp = finishV negotiate r f (own r) ims_on true /\
-    (if variant_admitted k r f then holds_copy (fst st') r f (ve_created e) else fst st' = c).
+    (if variant_accepted k r f then holds_copy (fst st') r f (ve_created e) else fst st' = c).
   Proof.
-    intros I Hk F Fr Hd Hmiss. unfold vary_missing, variant_admitted.
+    intros I Hk F Fr Hd Hmiss. unfold vary_missing, variant_accepted.
     destruct (compute hs r ok) as [[f hs'] lg0] eqn:C. cbn [fst].
     assert (L : vrelookup k c now = ((k, Some e), c)) by (unfold vrelookup, vget_item; rewrite F, Fr; reflexivity).
     rewrite L. destruct (I k e F) as (S & _ & Hrefs & _).
